@@ -122,11 +122,15 @@ def mon_c02(h, obs):
     acc_req = {}   # (f,t) -> list of accepted request indices, in order
     acc_rcpt = {}
     fee_failed = set()   # ids of requests that were processed and then failed to pay the fee
+    grouped = set()      # pairs that carried a one-to-many child: an accepted child receipt need not finalise anything
     for st in parse_trace(h, obs):
         if st[0] == "block":
             b = st[1]
             if not b.ok:
                 continue
+            for tx in b.txs:
+                if tx.kind == "ibtp" and tx.id is not None and tx.group is not None:
+                    grouped.add((tx.frm, tx.to))
             listed = {}
             for c, vs in b.counter.items():
                 for v in vs:
@@ -190,9 +194,24 @@ def mon_c02(h, obs):
                     hits.append(Hit("C02/source-counter-mismatch",
                                     f"GetInterchain({svc}).SourceInterchainCounter[{f}] = {m.get('sic', {}).get('1356:'+f, 0)} but last accepted request index is {lst[-1]}",
                                     detail=st[3]))
-            for (f, t), lst in acc_req.items():
-                if f == svc and not ORDERED.get(t, True):
+            # receipts: on a pair of ordered services without one-to-many traffic every accepted receipt finalises its
+            # transaction, so the receipt counter (and its mirror on the destination) is the number of accepted receipts
+            for (f, t), lst in acc_rcpt.items():
+                if (f, t) in grouped or not (ORDERED.get(t, True) and ORDERED.get(f, True)):
                     continue
+                if f == svc and m.get("rc", {}).get("1356:" + t, 0) != len(lst):
+                    hits.append(Hit("C02/receipt-counter-mismatch",
+                                    f"GetInterchain({svc}).ReceiptCounter[{t}] = {m.get('rc', {}).get('1356:'+t, 0)} but {len(lst)} receipts were accepted ({lst})",
+                                    detail=st[3]))
+                if t == svc and m.get("src", {}).get("1356:" + f, 0) != len(lst):
+                    hits.append(Hit("C02/source-receipt-counter-mismatch",
+                                    f"GetInterchain({svc}).SourceReceiptCounter[{f}] = {m.get('src', {}).get('1356:'+f, 0)} but {len(lst)} receipts were accepted ({lst})",
+                                    detail=st[3]))
+            for t_full, v in m.get("rc", {}).items():
+                t = t_full.split(":", 1)[1] if t_full.count(":") == 2 else t_full
+                if (svc, t) not in grouped and ORDERED.get(t, True) and ORDERED.get(svc, True) and v != len(acc_rcpt.get((svc, t), [])):
+                    hits.append(Hit("C02/receipt-counter-mismatch",
+                                    f"GetInterchain({svc}).ReceiptCounter[{t}] = {v} but accepted receipts are {acc_rcpt.get((svc, t), [])}", detail=st[3]))
             # entries for pairs with no accepted request must be absent / zero
             for t_full, v in m.get("ic", {}).items():
                 t = t_full.split(":", 1)[1] if t_full.count(":") == 2 else t_full
@@ -682,6 +701,24 @@ def mon_c05(h, obs):
                 hits.append(Hit("C05/success-after-failure", f"group status of {st[2]} is SUCCESS although the group failed in block {g.failed_at}"))
             if g.failed and val in (0,):
                 hits.append(Hit("C05/still-begin-after-failure", f"group status of {st[2]} is BEGIN although the group failed in block {g.failed_at}"))
+        elif st[0] == "q" and st[1] == "gtx" and st[2] in of_child and st[2] not in ambiguous and st[3].startswith("g="):
+            g = groups[of_child[st[2]]]
+            m = re.match(r"g=(\d+) h=\d+ n=(\d+) children=\[(.*)\]$", st[3])
+            if not m:
+                continue
+            gstate = int(m.group(1))
+            kids = dict((c.rsplit("=", 1)[0], int(c.rsplit("=", 1)[1])) for c in m.group(3).split(",") if c)
+            if any(c in ambiguous for c in kids):
+                continue
+            if g.failed:
+                stuck = sorted(c for c, v in kids.items() if v in (0, 3))
+                if stuck:
+                    hits.append(Hit("C05/child-not-moved-to-failure", f"the group of {g.frm} failed in block {g.failed_at} but its children {stuck} are still BEGIN/SUCCESS "
+                                    f"({', '.join(f'{c}={kids[c]}' for c in stuck)})", detail=st[3]))
+                if gstate in (0, 3):
+                    hits.append(Hit("C05/global-not-moved-to-failure", f"the group of {g.frm} failed in block {g.failed_at} but its global status is {gstate}", detail=st[3]))
+            if gstate == 3 and set(c for c, v in kids.items() if v == 3) != g.decl:
+                hits.append(Hit("C05/success-without-all-children", f"global status SUCCESS with child states {kids}, declared {sorted(g.decl)}", detail=st[3]))
     return hits
 
 
